@@ -9,6 +9,7 @@ package backend
 import (
 	"fmt"
 	"net"
+	"strings"
 	"sync/atomic"
 	"time"
 
@@ -115,7 +116,8 @@ type Backend struct {
 	Addr string
 	GS   *grpc.Server
 	// files served by reflection can be replaced at run time
-	files atomic.Value
+	files  atomic.Value
+	listed atomic.Value
 	// ReflHook, when set before a registration, is called for every request
 	// received on a reflection stream (n counts from 0 per back-end).
 	ReflHook atomic.Value // func(n int)
@@ -169,6 +171,41 @@ func (d delayed) ServerReflectionInfo(st rpb.ServerReflection_ServerReflectionIn
 	return d.ServerReflectionServer.ServerReflectionInfo(delayedStream{st, d.d, d.b})
 }
 
+// listedServices filters what the reflection service lists.
+type listedServices struct {
+	gs     *grpc.Server
+	filter *atomic.Value // map[string]bool; nil = everything
+}
+
+func (l listedServices) GetServiceInfo() map[string]grpc.ServiceInfo {
+	all := l.gs.GetServiceInfo()
+	f, _ := l.filter.Load().(map[string]bool)
+	if f == nil {
+		return all
+	}
+	out := map[string]grpc.ServiceInfo{}
+	for k, v := range all {
+		if f[k] || strings.HasPrefix(k, "grpc.reflection.") {
+			out[k] = v
+		}
+	}
+	return out
+}
+
+// SetListed restricts the services the reflection service lists to the given
+// full names (no name: list everything again). What is served stays as is.
+func (b *Backend) SetListed(names ...string) {
+	if len(names) == 0 {
+		b.listed.Store(map[string]bool(nil))
+		return
+	}
+	m := map[string]bool{}
+	for _, n := range names {
+		m[n] = true
+	}
+	b.listed.Store(m)
+}
+
 // SetFiles replaces the file descriptors the back-end's reflection service
 // hands out (the served implementation does not change).
 func (b *Backend) SetFiles(files ...protoreflect.FileDescriptor) { b.files.Store(files) }
@@ -196,7 +233,7 @@ func StartDelayed(tag string, withReflection bool, reflDelay time.Duration, svcs
 	b := &Backend{Tag: tag, Addr: lis.Addr().String(), GS: gs, lis: lis}
 	if withReflection {
 		rs := reflection.NewServer(reflection.ServerOptions{
-			Services:           gs,
+			Services:           listedServices{gs, &b.listed},
 			DescriptorResolver: Resolver{Files: files, Switch: &b.files},
 			ExtensionResolver:  protoregistry.GlobalTypes,
 		})
